@@ -24,7 +24,9 @@ fn group_thousands(v: &str) -> String {
 
 impl Statement {
     pub fn pages(&self) -> Vec<String> {
-        let month_line = format!("Current month: {} {}, {}", self.month.0, self.month.1, self.month.2);
+        // the label's letter case varies between statement vintages
+        let label = ["Current month:", "Current month:", "CURRENT MONTH:", "Current Month:"][(self.month.1 as usize + self.month.2 as usize + self.holdings.len()) % 4];
+        let month_line = format!("{label} {} {}, {}", self.month.0, self.month.1, self.month.2);
         let mut pages: Vec<String> = vec![];
         if self.month_on_earlier_page { pages.push(format!("Questrade statement\nAccount # 12345678\n{month_line}\nLast month: whatever 1, 2000\n")); }
         for k in 0..self.junk_pages_before { pages.push(format!("Page of other things {k}\nActivity details\n 100.0 shares bought\nTotal 1,234.00\n")); }
